@@ -29,6 +29,38 @@ WRAPS = ["{E}.attr", "{E}[0]", "{E}()", "{E}(a, k=b.c)", "getattr({E}, 'lit')", 
 STAR = "[*{E}]"
 
 
+# the same spellings in target position (ctx = Store / Del): the README rule does not depend on the context
+T_ATOMS = ["x", "tail", "getattr"]
+T_WRAPS = ["{E}.attr", "{E}[0]", "{E}().res", "{E}(a, k=b.c)[0]", "getattr({E}, 'lit').m", "{E}[i.j].k"]
+T_POSITIONS = [
+    ("store", "{E} = v", lambda m: m.body[0].targets[0]),
+    ("store, starred in a list", "[*{E}] = v", lambda m: m.body[0].targets[0].elts[0]),
+    ("store, starred in a tuple", "head, *{E} = v", lambda m: m.body[0].targets[0].elts[1]),
+    ("del", "del {E}", lambda m: m.body[0].targets[0]),
+    ("for target", "for {E} in v:\n    pass", lambda m: m.body[0].target),
+    ("for target, starred", "for first, *{E} in v:\n    pass", lambda m: m.body[0].target.elts[1]),
+    ("with target", "with v as {E}:\n    pass", lambda m: m.body[0].items[0].optional_vars),
+    ("augmented", "{E} += 1", lambda m: m.body[0].target),
+]
+
+
+def target_nodes():
+    level = list(T_ATOMS)
+    exprs = list(level)
+    for _ in range(2):
+        level = [w.replace("{E}", e) for e in level for w in T_WRAPS]
+        exprs += level
+    out = []
+    for e in exprs:
+        for label, tmpl, pick in T_POSITIONS:
+            try:
+                node = pick(ast.parse(tmpl.replace("{E}", e)))
+            except SyntaxError:
+                continue
+            out.append((f"{tmpl.replace('{E}', e)}   [{label}]", node))
+    return out
+
+
 def expr_of(src: str) -> ast.expr:
     e = ast.parse(src, mode="eval").body
     return e
@@ -115,6 +147,18 @@ def main(tier: str) -> int:
         meta.append({"expr": ("*" if star else "") + (s[2:-1] if star else s), "names_of(safe)": obs[0], "names_of(safe,no-unravel)": obs[1],
                      "names_of(unsafe)": obs[2], "old(safe)": obs[4], "old(unsafe)": obs[5]})
 
+    n_targets = 0
+    for label, node in target_nodes():
+        obs = observe(node)
+        try:
+            term = f"({emit.emit(node)}, (mkC10 {' '.join(emit.c_nres(o) for o in obs)}))"
+        except emit.EmitError:
+            continue
+        n_targets += 1
+        cases.append(term)
+        meta.append({"expr": label, "names_of(safe)": obs[0], "names_of(safe,no-unravel)": obs[1],
+                     "names_of(unsafe)": obs[2], "old(safe)": obs[4], "old(unsafe)": obs[5]})
+
     codes = C.coq_eval_codes("c10", HEADER, "node * c10_obs", "c10_code", cases, shard=500)
     corr_fail = [m for c, m in zip(codes, meta) if c & 1]
     # a spec failure is 'known' only inside a listed class AND when it is the failure the model predicts
@@ -144,7 +188,9 @@ def main(tier: str) -> int:
             "obligations": n_obl, "discharged": n_done, "checker_cmd": "cd /verif/coq && make props/C10.vo",
             "trusted_base": C.TRUSTED_BASE_COMMON + ["harness/emit.py (Python ast -> Coq node terms)"],
             "evaluations": len(cases), "distinct_nontrivial": len({m["expr"] for m in meta if len(m["expr"]) > 3}),
-            "rule": f"all expression trees of wrap-depth <= {depth} over {len(ATOMS)} atoms (one per expression class) x {len(WRAPS)} wrappers "
+            "target_position_nodes": n_targets,
+            "rule": f"{n_targets} nodes in target position (Store / Del context: assignment, starred in list / tuple, del, for, with, augmented) over {len(T_ATOMS)} atoms x {len(T_WRAPS)} wrappers to depth 2; "
+                    f"all expression trees of wrap-depth <= {depth} over {len(ATOMS)} atoms (one per expression class) x {len(WRAPS)} wrappers "
                     f"(attribute, subscript, call, getattr-family calls with literal / variable / missing / extra arguments), {n_exh} exhaustive + {n_rand} random to depth {rdepth} "
                     "+ starred forms; 6 observations each (names_of safe/unsafe x unravel, old namer safe/unsafe); distinct = distinct source text",
             "exhaustive": False, "traces_validated_against_impl": len(cases), "disagreements_checked": len(corr_fail),
